@@ -23,6 +23,14 @@ const (
 // text. Text rewriters (lint fixes, the language server's formatter) use it so
 // that they only ever touch ByteCode bytes.
 func ClassifyBytes(text string) []ByteClass {
+	return ClassifyBytesWith(text, true)
+}
+
+// ClassifyBytesWith is ClassifyBytes with a choice about backslashes in
+// single-quoted strings: the tokenizer treats them as escapes (so \' does not
+// end the string); with backslashEscapes false they are ordinary characters, as
+// in standard SQL.
+func ClassifyBytesWith(text string, backslashEscapes bool) []ByteClass {
 	out := make([]ByteClass, len(text))
 	mark := func(from, to int, c ByteClass) {
 		for k := from; k < to; k++ {
@@ -37,7 +45,7 @@ func ClassifyBytes(text string) []ByteClass {
 		case c == '\'' || c == '"' || c == '`':
 			j := i + 1
 			for j < n {
-				if c == '\'' && text[j] == '\\' && j+1 < n {
+				if backslashEscapes && c == '\'' && text[j] == '\\' && j+1 < n {
 					j += 2
 					continue
 				}
